@@ -168,11 +168,11 @@ class Check:
                 elif rec['aspect'].startswith('X'):
                     self.ext.append((rec['aspect'], rec['detail']))
 
-    def record(self, sub, out_name, args=(), seed_offset=0):
+    def record(self, sub, out_name, args=(), seed_offset=0, debug=False):
         """Run a harness recorder (impl -> spec direction); returns (trace path, summary)."""
         path = os.path.join(self.workdir(), out_name)
         try:
-            s = vp.jsv([sub, '--out', path] + [str(a) for a in args], seed_offset=seed_offset)
+            s = vp.jsv([sub, '--out', path] + [str(a) for a in args], seed_offset=seed_offset, debug=debug)
         except vp.HarnessHang as e:
             self._hang(e, f'recorder {sub} {" ".join(str(a) for a in args)} (seed {vp.seed() + seed_offset})')
             raise RecorderAborted()
@@ -776,6 +776,10 @@ def c18(ctx):
     trace, s = ctx.record('record-serde', 'serde18.ndjson', ['--n', 200 if ctx.quick else 5000, '--events', 'sj_rt,js_rt'])
     reasons_trace(ctx, 'serde', 'TraceSerde', trace, lambda ev, why: 'C18.' + why,
                   lambda ev, why: f'conversion with serde_json::Value ({ev["ev"]}): {why}', rec_summary=s)
+    # the same recorder in an UNOPTIMISED build of the crate ("neither direction panics": arithmetic overflow is only checked there)
+    trace, s = ctx.record('record-serde', 'serde18_debug.ndjson', ['--n', 120 if ctx.quick else 2000, '--events', 'sj_rt,js_rt'], seed_offset=17, debug=True)
+    reasons_trace(ctx, 'serde_debug', 'TraceSerde', trace, lambda ev, why: 'C18.' + why,
+                  lambda ev, why: f'conversion with serde_json::Value, unoptimised build ({ev["ev"]}): {why}', rec_summary=s)
     r = ctx.mc('serde_json_model', 'MC_SerdeJson', {}, {}, ['Laws', 'Dump'], spec='JSpec')
     ctx.replay([r['out']], ['C18.'])
 
